@@ -93,6 +93,9 @@ inductive Item
   | beginSub (gname : String) (inputs : List String)
   | endSub (rets : List Nat) (declared : List String)
   | output (h : Nat) (name : Option String)
+  /-- the trace function of the innermost open `subgraph(...)` raises; the caller catches the exception outside
+      `subgraph` and goes on using the enclosing builder. -/
+  | abortSub
   deriving DecidableEq, Repr
 
 structure Node where
@@ -266,9 +269,11 @@ def nodeCount (total : Bool) (st : St) : Nat :=
 def addNode (st : St) (n : Node) : St :=
   { st with cur := { st.cur with nodes := st.cur.nodes ++ [n] } }
 
+/-- a refusal (the builder raises).  The caller may catch the exception and go on: the trace continues on the
+    state the raising call left behind; `err` lists the refusals in order. -/
 def fail (st : St) (e : String) : St :=
   match st.err with
-  | some _ => st
+  | some p => { st with err := some (p ++ "," ++ e) }
   | none => { st with err := some e }
 
 /-! ## the operations -/
@@ -410,14 +415,20 @@ def inlineRun (total : Bool) (st0 : St) (f : Fn) (actuals : List (Option Nat)) (
     Pinned /repo: yes (commit 06b8334); before it a literal operand made the cloner raise (finding D20i). -/
 def inlineAdapts : Bool := true
 
-def doInline (total : Bool) (fns : List Fn) (st : St) (fi : Nat) (args : List Arg) (outs : Option (List String))
-    (pfx : String) (attrs : List (String × AVal)) : St :=
+/-- is the `_prefix` scope of `call_inline` left on the scope stack when `_inliner.instantiate` raises
+    ("Too many inputs")?  Pinned /repo: **no** — the pushed section runs under `try/finally` (commit 15c1bb3).
+    `true` = the code before that commit (`push_module(_prefix)` … `pop_module()` on the success path only;
+    finding D20j), kept for the regression statement `scopes_kept_prefix_refuted`. -/
+def prefixLeaks : Bool := false
+
+def doInlineWith (leak : Bool) (total : Bool) (fns : List Fn) (st : St) (fi : Nat) (args : List Arg)
+    (outs : Option (List String)) (pfx : String) (attrs : List (String × AVal)) : St :=
   match fns[fi]? with
   | none => fail st "no-such-function"
   | some f =>
     if !inlineAdapts && !(args.all isRef) then fail st "inline-literal-arg"
-    else if args.length > f.formals.length then fail st "too-many-inputs"
     else if outsMismatch outs f then
+      -- raised before anything is touched (`builder.py:801-806`)
       fail st "outputs-mismatch"
     else
       let desired := outs.map (fun o => o.map (qualifyValue st.cur))
@@ -425,20 +436,45 @@ def doInline (total : Bool) (fns : List Fn) (st : St) (fi : Nat) (args : List Ar
       -- operands: values as they are; Python literals promoted to initializers when `inlineAdapts`
       -- (`resolveArgs` leaves the state alone when every operand is a value)
       let ra := resolveArgs st0 args
-      let rr := inlineRun total ra.1 (resolveFn (effectiveAttrs total f attrs) f) ra.2 desired
-      let st4 := if pfx = "" then rr.1 else popScope rr.1
-      { st4 with handles := st4.handles ++ rr.2 }
+      if args.length > f.formals.length then
+        -- `_inliner.instantiate` raises *after* the prefix was pushed and the operands were adapted: the promoted
+        -- literals stay (harmless); the prefix scope is popped by the `finally` (15c1bb3) — before it (`leak`) it stayed
+        fail (if leak || pfx = "" then ra.1 else popScope ra.1) "too-many-inputs"
+      else
+        let rr := inlineRun total ra.1 (resolveFn (effectiveAttrs total f attrs) f) ra.2 desired
+        let st4 := if pfx = "" then rr.1 else popScope rr.1
+        { st4 with handles := st4.handles ++ rr.2 }
+
+def doInline (total : Bool) (fns : List Fn) (st : St) (fi : Nat) (args : List Arg) (outs : Option (List String))
+    (pfx : String) (attrs : List (String × AVal)) : St :=
+  doInlineWith prefixLeaks total fns st fi args outs pfx attrs
 
 def doBeginSub (st : St) (gname : String) (inputs : List String) : St :=
   let (st1, ids) := newValues st inputs
   { st1 with cur := ⟨gname, ids, [], st.cur.scope, []⟩, stack := st.cur :: st.stack,
              handles := st1.handles ++ ids.map some }
 
+/-- the sub-builder is dropped (its trace function raised, or `build_graph` raised after it returned): back in the
+    enclosing builder, whose scope stack was never touched (the sub-builder worked on a *copy*).  The dropped graph
+    stays in `_root._all_graphs` — its nodes keep counting for `_node_count()` — so it joins `done` (never attached
+    to a node). -/
+def abandon (st : St) : St :=
+  match st.stack with
+  | [] => st
+  | parent :: rest => { st with done := st.done ++ [st.cur], cur := parent, stack := rest }
+
+def doAbortSub (st : St) : St :=
+  match st.stack with
+  | [] => fail st "abort-at-root"
+  | _ :: _ => abandon st
+
 def doEndSub (st : St) (rets : List Nat) (declared : List String) : St :=
   match st.stack with
   | [] => fail st "endsub-at-root"
   | parent :: rest =>
-    if rets.length ≠ declared.length then fail st "outputs-mismatch"
+    if rets.length ≠ declared.length then
+      -- `build_graph` raises ValueError *after* the trace function ran (`builder.py:277-281`): the sub-builder is dropped
+      fail (abandon st) "outputs-mismatch"
     else
       let ids := rets.filterMap (fun h => st.handles.getD h none)
       let st1 := (ids.zip declared).foldl (fun s (id, d) =>
@@ -468,6 +504,7 @@ def step (total : Bool) (fns : List Fn) (st : St) : Item → St
   | .beginSub g i => doBeginSub st g i
   | .endSub r d => doEndSub st r d
   | .output h n => doOutput st h n
+  | .abortSub => doAbortSub st
 
 /-- the state after the whole trace; the root graph is `cur` when every `beginSub` was closed. -/
 def buildWith (total : Bool) (fns : List Fn) (tr : List Item) : St := tr.foldl (step total fns) St.init
@@ -493,6 +530,7 @@ def St.nodeNames (st : St) : List String :=
 def isSub : Item → Bool
   | .beginSub _ _ => true
   | .endSub _ _ => true
+  | .abortSub => true
   | _ => false
 
 end OV.C18
